@@ -56,12 +56,12 @@ func vfP2PAlphabet(thorough bool) []vfP2POp {
 		}
 		ops = append(ops, vfP2POp{Kind: "leave", Actor: u}, vfP2POp{Kind: "unsub", Actor: u}, vfP2POp{Kind: "pub", Actor: u},
 			vfP2POp{Kind: "note", Actor: u, What: "recv", Seq: 1}, vfP2POp{Kind: "note", Actor: u, What: "read", Seq: 1},
-			vfP2POp{Kind: "delsub", Actor: u}, vfP2POp{Kind: "deltopic", Actor: u, Hard: true})
+			vfP2POp{Kind: "delsub", Actor: u}, vfP2POp{Kind: "deltopic", Actor: u, Hard: true}, vfP2POp{Kind: "setpriv", Actor: u})
 		if thorough {
 			ops = append(ops, vfP2POp{Kind: "deltopic", Actor: u, Hard: false}, vfP2POp{Kind: "note", Actor: u, What: "kp"})
 		}
 	}
-	ops = append(ops, vfP2POp{Kind: "pub", Actor: 2}, vfP2POp{Kind: "setself", Actor: 2, Mode: "JRWPA"}, vfP2POp{Kind: "reload"})
+	ops = append(ops, vfP2POp{Kind: "pub", Actor: 2}, vfP2POp{Kind: "setself", Actor: 2, Mode: "JRWPA"}, vfP2POp{Kind: "setpriv", Actor: 2}, vfP2POp{Kind: "reload"})
 	return ops
 }
 
@@ -89,6 +89,8 @@ func (t *vfTW) p2pRequest(o vfP2POp, n int) (string, *vfClient) {
 			return fmt.Sprintf(`{"sub":{"id":"$ID","topic":"%s"}}`, a), c
 		}
 		return fmt.Sprintf(`{"sub":{"id":"$ID","topic":"%s","set":{"sub":{"mode":"%s"}}}}`, a, o.Mode), c
+	case "setpriv":
+		return fmt.Sprintf(`{"set":{"id":"$ID","topic":"%s","desc":{"private":{"note":"of-u%d"}}}}`, a, o.Actor), c
 	case "setself":
 		return fmt.Sprintf(`{"set":{"id":"$ID","topic":"%s","sub":{"mode":"%s"}}}`, a, o.Mode), c
 	case "setother":
